@@ -18,7 +18,7 @@ PROPERTY = "C15"
 
 META = {
     "bounds": {
-        "quick": "(a) every 8-bit string of length <= 3 through parse_as_ast and of length <= 2 through assemble_string_with_emitter; (b) every prefix of 37 template programs + the 2 sample sources followed by 1 symbolic character; (c) token sequences of length <= 3 over all token types x 26 token texts; (d) .for bounds and recursive-macro depth in [-2, 8]",
+        "quick": "(a) every 8-bit string of length <= 3 through parse_as_ast and of length <= 2 through assemble_string_with_emitter; (b) every prefix of 37 template programs + the 2 sample sources followed by 1 symbolic character; (c) token sequences of length <= 3 over all token types x 26 token texts; (d) .for bounds and recursive-macro depth in [-2, 8]; (e) .include_ips files; (f) 11 templates + a loop with a symbolic count applying a macro and declaring a named scope, assembled with the symbol dump on",
         "thorough": "(a) length <= 4 (parse) / <= 3 (assemble); (b) 2 symbolic characters; (c) length <= 4; (d) same",
     },
     "outside": ["arbitrary texts longer than the bound", "code points above 255", "dead scanner states unreachable from the public API (lex_macro_args_def)"],
@@ -73,6 +73,9 @@ TEMPLATES = [
 ]
 
 
+DUMP_TEMPLATES = [7, 8, 9, 10, 11, 17, 30, 31, 32, 33, 34]
+
+
 def samples():
     repo = os.environ.get("A816_REPO", "/repo")
     out = []
@@ -121,6 +124,10 @@ def jobs(tier, seed):
         out.append({"id": f"file/ips/{n}", "fam": "ipsfile", "n": n})
     for n in range(0, (3 if tier == "quick" else 4) + 1):
         out.append({"id": f"file/ips-noheader/{n}", "fam": "ipsfile", "n": n, "noheader": True})
+    # the symbol dump (Program(dump_symbols=True) / --dump-symbols) walks every scope after the assembly: whole templates
+    # with loops, macros, blocks and named scopes nested in one another
+    for ti in DUMP_TEMPLATES:
+        out.append({"id": f"dump/{ti:02d}", "fam": "dump", "text": TEMPLATES[ti]})
     out.append({"id": "expand/for", "fam": "for"})
     out.append({"id": "expand/nested-for", "fam": "for2"})
     out.append({"id": "expand/recursive-macro", "fam": "rec"})
@@ -213,6 +220,15 @@ def run(spec, cx):
             return "parsed"
 
         return guarded(spec["k"] * 4, parse)
+    if fam == "dump":
+        from harness.common import virtual_files
+
+        text = spec["text"]
+        k = cx.int("k", 0, 3)      # symbolic count for a trailing loop that applies a macro inside a block
+        src = text + ".macro dumpm(q) {\n{\n.db q\n}\n}\n.for dj := 0, k {\ndumpm(dj)\n.scope dns {\ndl:\n}\n}\n"
+        with virtual_files(cx, {"x.s": "nop\n", "t.tbl": "41=a\n"}):
+            p = new_program(syms={"k": k}, dump_symbols=True)
+            return guarded(len(src), lambda: "assembled" if p.assemble_string_with_emitter(src, "m.s", RecWriter()) is None else "error-reported")
     if fam == "ipsfile":
         from harness.common import virtual_files
 
